@@ -701,6 +701,16 @@ theorem propagate_kind (f : Flags) (k : CompKind) (cs : List (Key × Node)) :
   · exact ⟨cs, rfl, rfl⟩
   · exact ⟨_, rfl, hk _ _⟩
 
+/-- re-propagating the inherited flags keeps the class, the flags of the node, the keys of the
+    arguments (in order) and the data -/
+theorem propagate_shape (f sf : Flags) (k : CompKind) (cs : List (Key × Node)) :
+    ∃ cs', propagate (.comp f k cs) = .comp f k cs' ∧ cs'.map (·.1) = cs.map (·.1) ∧
+      native (.comp f k cs') = native (.comp sf k cs) := by
+  obtain ⟨cs', h1, h2⟩ := propagate_kind f k cs
+  refine ⟨cs', h1, h2, ?_⟩
+  rw [← h1, native_propagate]
+  simp [native]
+
 theorem propagate_nil (f : Flags) (k : CompKind) : propagate (.comp f k []) = .comp f k [] := by
   simp only [propagate]; split <;> simp [applyKwList]
 
@@ -751,7 +761,7 @@ theorem finishMerge_func (sf : Flags) (sk : CompKind) (scs' : List (Key × Node)
     (h1 : sk.isFunc = true) (h2 : pk = .dict ∨ pk = .list ∨ pk.isFunc = true) :
     finishMerge sf sk scs' (.comp of pk ocs) =
       .ok (if hasPrio of sf true then propagate (.comp (replaceSelfFlags sf of) sk scs')
-           else .comp (replaceOtherFlags sf of) sk scs', true) := by
+           else propagate (.comp (replaceOtherFlags sf of) sk scs'), true) := by
   have hm : ∀ fl, maybePromote fl sk scs' (.comp of pk ocs) = .ok (.comp fl sk scs', true) := by
     intro fl
     rcases h2 with h | h | h
@@ -780,19 +790,19 @@ theorem compMerge_func_plain (rec : Node → Node → Except Err (Node × Bool))
           | none =>
             match adoptAll sf sk ocs [] with
             | .error e => .error e
-            | .ok cs => .ok (.comp (replaceOtherFlags of sf) sk cs, true)
+            | .ok cs => .ok (propagate (.comp (replaceOtherFlags of sf) sk cs), true)
         else
           match mergeLoop rec sf sk r.1.children ocs with
           | .error e => .error e
           | .ok scs' =>
             .ok (if hasPrio of sf true then propagate (.comp (replaceSelfFlags sf of) sk scs')
-                 else .comp (replaceOtherFlags sf of) sk scs', true)
+                 else propagate (.comp (replaceOtherFlags sf of) sk scs'), true)
       else
         match mergeLoop rec sf sk scs ocs with
         | .error e => .error e
         | .ok scs' =>
           .ok (if hasPrio of sf true then propagate (.comp (replaceSelfFlags sf of) sk scs')
-               else .comp (replaceOtherFlags sf of) sk scs', true) := by
+               else propagate (.comp (replaceOtherFlags sf of) sk scs'), true) := by
   have h2' : pk = .dict ∨ pk = .list ∨ pk.isFunc = true := by
     rcases h2 with h | h
     · exact Or.inl h
@@ -909,7 +919,7 @@ theorem compMerge_replaced (rec : Node → Node → Except Err (Node × Bool)) (
       match reqNew ([] :: (filterNode (maybeKeep (.comp of ok ocs)) [] (.comp sf sk scs)).2) []
           (.comp of ok ocs) with
       | some p => .error (.notnew p)
-      | none => .ok (.comp (replaceOtherFlags of sf) ok ocs, false) := by
+      | none => .ok (propagate (.comp (replaceOtherFlags of sf) ok ocs), false) := by
   have hfn : ∃ cs', (filterNode (maybeKeep (.comp of ok ocs)) [] (.comp sf sk scs)).1 = .comp sf sk cs' := by
     simp [filterNode]
   obtain ⟨cs', hcs'⟩ := hfn
